@@ -7,8 +7,8 @@
 
    wfb (Proofs/ParserOkTree.v) -> the conversion succeeds, and the converted tree is supported2, term_ok,
    every group number of a Capture / Ref / BackRefCond satisfies the membership predicate (ren_ok), and dirb
-   becomes tm_dir_ok.  With Proofs/ParserOkMain.v (every option word) and Proofs/ParserOkAgree.v (group numbers;
-   not ECMAScript) this gives the facts about parsed trees. *)
+   becomes tm_dir_ok.  With Proofs/ParserOkMain.v (shape) and Proofs/ParserOkAgree.v (group numbers), both for every
+   option word, this gives the facts about parsed trees. *)
 From Coq Require Import ZifyBool.
 From Verif Require Import Base.Prelude Base.Wire Gen.ParseLitGen Model.Escape Model.ParseLit Model.GroupMap Model.CharClass
   Model.Parser Model.Tree Model.Spec Model.VM Model.Writer
@@ -281,20 +281,20 @@ Proof.
   exists body. auto.
 Qed.
 
-(* (c): not ECMAScript; the word-character oracle agrees with the ASCII table on a dozen characters;
+(* (c), every option word: the word-character oracle agrees with the ASCII table on a dozen characters;
    Captop below MaxInt32 *)
 Theorem parsed_tree_groups o mco_flag p t caps captop :
   (forall c, is_word_char c = true -> negb (zmem c [33; 35; 39; 40; 41; 45; 60; 61; 62; 63; 91; 92]) = true) ->
   (forall c, (49 <=? c) && (c <=? 57) = true -> is_word_char c = true) ->
-  useE o = false -> captop < maxint32 ->
+  captop < maxint32 ->
   parse o mco_flag p = Ok (PR_Tree t caps captop) ->
   forall sid, exists body,
     to_node sid t = Some (NCapture (n_o t) 0 (-1) body) /\
     supported2 (NCapture (n_o t) 0 (-1) body) = true /\ term_ok (NCapture (n_o t) 0 (-1) body) = true /\
     ren_ok (fun g => zmem g caps = true) (NCapture (n_o t) 0 (-1) body).
 Proof.
-  intros HW HD HE HT E sid.
-  pose proof (parse_tree_wf is_word_char to_lower simple_fold participates cat_in cat_name HW HD o mco_flag p t caps captop HE HT E) as W.
+  intros HW HD HT E sid.
+  pose proof (parse_tree_wf is_word_char to_lower simple_fold participates cat_in cat_name HW HD o mco_flag p t caps captop HT E) as W.
   destruct (parse_tree_root is_word_char to_lower simple_fold participates cat_in cat_name o mco_flag p t caps captop E) as [R1 [R2 R3]].
   destruct (wf_conv sid (fun k => zmem k caps) t W) as [root [ER [[S [T R]] _]]].
   destruct (root_conv sid (fun k => zmem k caps) t R1 R2 R3 root W ER) as [body ->].
@@ -615,24 +615,24 @@ Definition runs_as_spec (caps : list Z) (captop : Z) (root : node) : Prop :=
           end)) /\
       (L < 0 -> exists s', x = Ok s').
 
-(* outright: every option word but ECMAScript *)
+(* outright: every option word *)
 Theorem pattern_text_end_to_end o mco_flag ptxt t caps captop :
   (forall c, is_word_char c = true -> negb (zmem c [33; 35; 39; 40; 41; 45; 60; 61; 62; 63; 91; 92]) = true) ->
   (forall c, (49 <=? c) && (c <=? 57) = true -> is_word_char c = true) ->
-  useE o = false -> captop < maxint32 ->
+  captop < maxint32 ->
   parse o mco_flag ptxt = Ok (PR_Tree t caps captop) ->
   forall sid, exists body,
     to_node sid t = Some (NCapture (n_o t) 0 (-1) body) /\ runs_as_spec caps captop (NCapture (n_o t) 0 (-1) body).
 Proof.
-  intros HW HD HE HT E sid.
-  destruct (parsed_tree_groups is_word_char to_lower simple_fold participates cat_in cat_name o mco_flag ptxt t caps captop HW HD HE HT E sid)
+  intros HW HD HT E sid.
+  destruct (parsed_tree_groups is_word_char to_lower simple_fold participates cat_in cat_name o mco_flag ptxt t caps captop HW HD HT E sid)
     as [body [EN [S [T R]]]].
   destruct (parsed_caps_table is_word_char to_lower simple_fold participates cat_in cat_name o mco_flag ptxt t caps captop E) as [CS [CZ [CN CB]]].
   exists body. split; [exact EN|]. unfold runs_as_spec.
   exact (tree_end_to_end caps captop (n_o t) body CS CZ CN (CB HT) S T R).
 Qed.
 
-(* every option word (ECMAScript included), the group numbers checked on the tree *)
+(* without the oracle ties: the group numbers checked on the tree *)
 Theorem pattern_text_end_to_end_checked o mco_flag ptxt t caps captop :
   captop < maxint32 ->
   parse o mco_flag ptxt = Ok (PR_Tree t caps captop) ->
@@ -663,12 +663,12 @@ Qed.
 Theorem parsed_tree_nums o mco_flag p t caps captop :
   (forall c, is_word_char c = true -> negb (zmem c [33; 35; 39; 40; 41; 45; 60; 61; 62; 63; 91; 92]) = true) ->
   (forall c, (49 <=? c) && (c <=? 57) = true -> is_word_char c = true) ->
-  useE o = false -> captop < maxint32 ->
+  captop < maxint32 ->
   parse o mco_flag p = Ok (PR_Tree t caps captop) ->
   wfb (fun k => zmem k caps) t = true /\ nums_b caps t = true.
 Proof.
-  intros HW HD HE HT E.
-  pose proof (parse_tree_wf is_word_char to_lower simple_fold participates cat_in cat_name HW HD o mco_flag p t caps captop HE HT E) as W.
+  intros HW HD HT E.
+  pose proof (parse_tree_wf is_word_char to_lower simple_fold participates cat_in cat_name HW HD o mco_flag p t caps captop HT E) as W.
   split; [exact W | apply wf_nums; exact W].
 Qed.
 
